@@ -573,6 +573,28 @@ impl<T: SizedShape, L: LenShape> Shape for FlatVec<T, L> {
             }
             arr!(0, 1, 2, 3, 4, 5, 6, 256, 257);
         }
+        if r == 0xF3 {
+            // an iterator that claims an exact length of len + 2 but yields len items (size_hint is advisory; unsafe
+            // code must not trust it). Only where the claimed length fits as well, so that the emplacer's own
+            // capacity pre-check cannot refuse content that fits.
+            let n = xs.len();
+            let al = std::cmp::max(std::mem::align_of::<L>(), std::mem::align_of::<T>());
+            let room = bytes.len().saturating_sub(std::cmp::max(std::mem::size_of::<L>(), std::mem::align_of::<T>())) / al * al;
+            let fits = std::mem::size_of::<T>() != 0 && room / std::mem::size_of::<T>() >= n + 2 && (n as u128 + 2) <= <L as LenShape>::LEN.max();
+            if fits {
+                struct Lying<I>(I, usize);
+                impl<I: Iterator> Iterator for Lying<I> {
+                    type Item = I::Item;
+                    fn next(&mut self) -> Option<I::Item> {
+                        self.0.next()
+                    }
+                    fn size_hint(&self) -> (usize, Option<usize>) {
+                        (self.1, Some(self.1))
+                    }
+                }
+                return vec::FromIterator(Lying(xs.iter().map(T::from_val), n + 2)).emplace_unchecked(bytes);
+            }
+        }
         if r == 0xF5 {
             // an iterator whose size_hint is loose: (0, Some(len + 3)), yields exactly len items
             let n = xs.len();
